@@ -93,7 +93,8 @@ async fn serve<T>(fake: &mut FakeServer, orig: &Frame, o: &Outage, op: &mut Join
                 if let Some(t) = last_answer {
                     // attempt number `attempts` must have waited for its backoff delay after the previous failure
                     let gap = t.elapsed();
-                    let want = o.delay_of(attempts);
+                    // (answered Ok and refused afterwards: the next attempt is the first one of a new outage)
+                    let want = if o.how == "ok-then-error" { o.delay_of(1) } else { o.delay_of(attempts) };
                     if gap + Duration::from_millis(1) < want {
                         return (Served::Mismatch(format!("re-registration attempt {attempts} arrived {gap:?} after the previous failure; the configured backoff asks for at least {want:?}")), None);
                     }
@@ -101,13 +102,25 @@ async fn serve<T>(fake: &mut FakeServer, orig: &Frame, o: &Outage, op: &mut Join
                 if &inc.first != orig {
                     return (Served::Mismatch(format!("re-registration frame {:?} differs from the original {:?}", inc.first, orig)), None);
                 }
-                if attempts <= o.fails && o.how == "cut" {
+                // the client's back-off delay starts when it learns of the failure, which is never
+                // earlier than the moment the failure starts to be sent: time-stamps are taken before
+                let t_fail = std::time::Instant::now();
+                if attempts <= o.fails && o.how == "ok-then-error" {
+                    // what the real server does to a replier whose old binding still exists: the
+                    // registration is acknowledged, then the router refuses it and closes the stream
+                    let _ = inc.stream.send(Frame::Ok).await;
+                    let t_fail = std::time::Instant::now();
+                    let _ = inc.stream.send(Frame::Error(ErrorPayload { code: REPLIER_ALREADY_BOUND, message: "A replier already exists for this topic".into() })).await;
+                    let _ = inc.stream.finish().await;
+                    last_answer = Some(t_fail);
+                    rejected.push(inc);
+                } else if attempts <= o.fails && o.how == "cut" {
                     fake.cut();
-                    last_answer = Some(std::time::Instant::now());
+                    last_answer = Some(t_fail);
                     rejected.push(inc);
                 } else if attempts <= o.fails {
                     let _ = inc.stream.send(Frame::Error(ErrorPayload { code: o.code, message: "scripted failure".into() })).await;
-                    last_answer = Some(std::time::Instant::now());
+                    last_answer = Some(t_fail);
                     rejected.push(inc);
                 } else {
                     let _ = inc.stream.send(Frame::Ok).await;
@@ -181,6 +194,9 @@ struct Params {
     outage: String,
     /// how scripted failing attempts fail (see `Outage::how`)
     how: String,
+    /// publisher: two 5 KiB items are fed (not flushed) right before every cut, so that the loss
+    /// surfaces in poll_ready (the framed writer flushes there once 8 KiB are buffered)
+    queued: bool,
 }
 
 async fn cell(set: Arc<CertSet>, p: Params) -> Result<String, Fail> {
@@ -219,7 +235,8 @@ macro_rules! first_registration {
 /// shared tail of an outage: interpret what the fake server saw
 fn judge(served: &Served, p: &Params, j: usize, class: &str) -> Result<(), Fail> {
     let fails = p.fails[j - 1];
-    let expect_attempts = if p.fatal { 1 } else if fails < p.max { fails + 1 } else { p.max };
+    // refused after Ok: every acknowledged re-registration ends one outage, the refusal starts the next
+    let expect_attempts = if p.how == "ok-then-error" { fails + 1 } else if p.fatal { 1 } else if fails < p.max { fails + 1 } else { p.max };
     match served {
         Served::Mismatch(m) => Err(fail(if m.contains("backoff") { "backoff-not-honoured" } else { "re-registration-differs" }, class, m.clone())),
         Served::Recovered(_, a) | Served::GaveUp(a) => {
@@ -250,6 +267,12 @@ async fn publisher(fake: &mut FakeServer, cutter: &Cutter, client: &selium::Clie
         expect_frame(&mut cur, &format!("pre{i}"), "").await.map_err(|e| fail("setup", "pre", e))?;
     }
     for j in 1..=p.outages {
+        if p.queued {
+            for n in 0..2 {
+                let big = format!("lostbig{j}-{n}-{}", "x".repeat(5 * 1024));
+                publ.feed(big).await.map_err(|e| fail("send-error", class, format!("feed before outage {j} failed: {e}")))?;
+            }
+        }
         cutter.outage(fake).await;
         let seen = Arc::new(std::sync::atomic::AtomicBool::new(false));
         let seen_op = seen.clone();
@@ -682,6 +705,29 @@ fn cells(tier: &str) -> Vec<Value> {
                         id += 1;
                     }
                 }
+                // a replier refused the way the real server does it (Ok, then the bind error, then
+                // the end of the stream): each acknowledged re-registration is a new outage
+                if kind == "replier" && (pre == 0 || thorough) {
+                    let mut fvs: Vec<Vec<u32>> = vec![vec![1], vec![2], vec![1, 1]];
+                    if thorough {
+                        fvs.push(vec![3]);
+                        fvs.push(vec![2, 2]);
+                    }
+                    for fv in fvs {
+                        v.push(json!({"cell": id, "kind": kind, "items_before": pre, "outages": fv.len(), "failing_attempts_per_outage": fv, "failure": "retryable", "attempt_failure": "ok-then-error", "backoff": (["constant", "linear", "exponential"][id % 3]), "max_attempts": max}));
+                        id += 1;
+                    }
+                }
+                // a publisher with more than 8 KiB fed but not flushed when the connection drops
+                if kind == "publisher" && (pre == 1 || thorough) {
+                    for fv in [vec![0u32], vec![1], vec![0, 0]] {
+                        if fv[0] >= max {
+                            continue;
+                        }
+                        v.push(json!({"cell": id, "kind": kind, "items_before": pre, "outages": fv.len(), "failing_attempts_per_outage": fv, "failure": "retryable", "queued_unflushed": true, "backoff": "constant", "max_attempts": max}));
+                        id += 1;
+                    }
+                }
                 // unrecoverable answer to the first re-registration attempt
                 v.push(json!({"cell": id, "kind": kind, "items_before": pre, "outages": 1, "failing_attempts_per_outage": [1], "failure": "unrecoverable", "backoff": "constant", "max_attempts": max}));
                 id += 1;
@@ -715,6 +761,7 @@ pub async fn run(tier: &str, replaying: bool) -> ! {
                 max: c["max_attempts"].as_u64().unwrap() as u32,
                 outage: c["outage"].as_str().unwrap_or("close").to_string(),
                 how: c["attempt_failure"].as_str().unwrap_or("error-frame").to_string(),
+                queued: c["queued_unflushed"].as_bool().unwrap_or(false),
             };
             let nontrivial = p.outages >= 2 || p.fails.iter().any(|f| *f >= 1);
             (nontrivial, cell(set, p).await)
@@ -727,7 +774,7 @@ pub async fn run(tier: &str, replaying: bool) -> ! {
     finish(
         rep,
         outs,
-        "every cell of: stream kind {publisher, subscriber, requestor, replier} x items exchanged before the first cut {0,1(,2)} x number of successive outages 1..=max+2 x failing re-registration attempts per outage 0..=max x backoff {constant, linear, exponential(2)} (all three in thorough, rotating in quick) with step 5 ms x max attempts {1,2(,3)}, plus (thorough) every non-uniform vector of survivable failure counts over up to three outages, plus cells whose failing attempts fail because the fake server cuts the connection again while the client waits for the answer to its re-registration (instead of answering with an error frame), plus one unrecoverable-answer cell per (kind, max, items), plus silent outages (a UDP relay drops every packet for 2.6 s against a 1.5 s idle time-out, so the connection ends by time-out instead of by a close frame) per (kind, max), plus two clones of one requestor recovering one after the other with a request of the first in flight. Oracle per outage: the re-registration frame equals the original; the fake server counts exactly fails+1 attempts (max when all fail, 1 when unrecoverable) regardless of earlier outages; with fails<max the stream works again (published item reaches the fake server / pushed item is yielded / retried and fresh requests are answered / a request sent to the replier is replied to); with fails==max too-many-retries is reported on the operation that hit the outage or on the next one; an unrecoverable answer is reported immediately. non-trivial = at least two outages or at least one failing attempt",
+        "every cell of: stream kind {publisher, subscriber, requestor, replier} x items exchanged before the first cut {0,1(,2)} x number of successive outages 1..=max+2 x failing re-registration attempts per outage 0..=max x backoff {constant, linear, exponential(2)} (all three in thorough, rotating in quick) with step 5 ms x max attempts {1,2(,3)}, plus (thorough) every non-uniform vector of survivable failure counts over up to three outages, plus cells whose failing attempts fail because the fake server cuts the connection again while the client waits for the answer to its re-registration (instead of answering with an error frame), plus repliers whose re-registration is acknowledged and then refused with replier-already-bound and closed (what the real server does while the old binding exists; every acknowledged attempt ends one outage, so the replier must keep re-registering until served), plus publishers with 10 KiB fed but not flushed at the moment of the cut (the loss then surfaces in poll_ready), plus one unrecoverable-answer cell per (kind, max, items), plus silent outages (a UDP relay drops every packet for 2.6 s against a 1.5 s idle time-out, so the connection ends by time-out instead of by a close frame) per (kind, max), plus two clones of one requestor recovering one after the other with a request of the first in flight. Oracle per outage: the re-registration frame equals the original; the fake server counts exactly fails+1 attempts (max when all fail, 1 when unrecoverable) regardless of earlier outages; with fails<max the stream works again (published item reaches the fake server / pushed item is yielded / retried and fresh requests are answered / a request sent to the replier is replied to); with fails==max too-many-retries is reported on the operation that hit the outage or on the next one; an unrecoverable answer is reported immediately. non-trivial = at least two outages or at least one failing attempt",
         "fault sequences are enumerated exhaustively; scheduling inside tokio/quinn is not controlled",
         json!({"step_ms": STEP_MS}),
         replaying,
